@@ -33,6 +33,7 @@ const (
 	DevCommitMsg   = "commit-msg"   // PAN-OS commit answers with a message
 	DevJobFail     = "job-fail"     // PAN-OS commit job result FAIL
 	DevJobPend     = "job-pend"     // PAN-OS: PEND twice, then the result
+	DevJobPendLong = "job-pend-long" // PAN-OS: PEND seventy times (more than 10 minutes of polls), then FAIL
 )
 
 // StallBodyMax: how long a client may stay connected to a reply that
@@ -313,8 +314,11 @@ func (h *HTTPS) servePanos(w http.ResponseWriter, r *http.Request, desc, class, 
 			h.rec(desc, class, dev, dev == "")
 			h.jobPolls++
 			res := "OK"
-			if h.jobMode == DevJobFail {
+			if h.jobMode == DevJobFail || h.jobMode == DevJobPendLong {
 				res = "FAIL"
+			}
+			if h.jobMode == DevJobPendLong && h.jobPolls <= 70 {
+				res = "PEND"
 			}
 			if h.jobMode == DevJobPend && h.jobPolls <= 2 {
 				res = "PEND"
@@ -382,7 +386,7 @@ func (h *HTTPS) servePanos(w http.ResponseWriter, r *http.Request, desc, class, 
 			w.Write([]byte(`<response status="success" code="13"><msg>Another commit is in progress</msg></response>`))
 			return
 		}
-		if dev == DevJobFail || dev == DevJobPend {
+		if dev == DevJobFail || dev == DevJobPend || dev == DevJobPendLong {
 			h.jobMode = dev
 		}
 		h.rec(desc, class, dev, dev == "" || dev == DevJobPend)
